@@ -167,6 +167,18 @@ CLAIMS = {
         "quad, LeProHQ and eko basis functions are deterministic pure functions.",
         "DESIGN.md section 3, C14",
     ),
+    "C15": (
+        "folding of the repository's writers and readers over a virtual file system (yaml/npz/tar/pathlib models); structural comparison",
+        "Decides: for outputs produced by partially evaluated runs (structure functions and cross sections, two points each, scale-variation "
+        "orders, an empty observable, a None observable, a point carrying nf) and for both formats - through strings, streams and files - "
+        "load(dump(out)) has identical observables, result classes, x, Q2, y, nf, order keys in order, operator values and errors (symbolic "
+        "entries: any arithmetic, cast, rounding or mix-up on the value path changes the normal form), metadata (grid, pids, projectile, "
+        "interpolation settings) and echoed cards, and a second dump/load cycle is again identical. NOT decided: exactness of float <-> text and "
+        "of npz (library properties).",
+        "Trusted: CPython ast; yadsa partial evaluator; the yaml/npz/tar/pathlib models in rules/c15.py (safe YAML holds plain containers and "
+        "scalars only; npz holds arrays by name; tar holds the files under the added directory); PyYAML/numpy float64 serialisation is exact.",
+        "DESIGN.md section 3, C15",
+    ),
     "C16": (
         "partial evaluation of the repository's source over the configuration lattice; must-pass-through; probe folding",
         "Decides: over the documented configuration lattice (kind x heavyness x process x scheme/NfFF x PTO, plus scale-variation, "
